@@ -417,6 +417,30 @@ package agent
 // (maximum_ - depth_, rank of the function, pointer nesting of the first operand).
 //@ declare ptrh(U) Int
 //@ declare rlen(U) Int
+//@ declare rvalid(U) Bool
+//@ declare rnil(U) Bool
+//@ declare rkind(U) Int
+//@ declare rtype(U) U
+//@ declare rindex(U, Int) U
+// rv / cv: the ranking and the comparison computed by rankValues / compareValues on two reflected values
+// (they read their operands only; their results are functions of the operands)
+//@ declare rv(U, U, U) Int
+//@ declare cv(U, U, U) Bool
+//@ assume func (reflect.Value).IsValid
+//@   nopanic
+//@   ensures result <==> rvalid(this)
+//@ assume func (reflect.Value).IsNil
+//@   nopanic
+//@   ensures result <==> rnil(this)
+//@ assume func (reflect.Value).Kind
+//@   nopanic
+//@   ensures result == rkind(this)
+//@ assume func (reflect.Value).Type
+//@   nopanic
+//@   ensures result == rtype(this)
+//@ assume func (reflect.Value).Index
+//@   nopanic
+//@   ensures result == rindex(this, $1)
 //@ assume func (reflect.Value).Len
 //@   nopanic
 //@   ensures result == rlen(this) && result >= 0
@@ -426,18 +450,28 @@ package agent
 //@ assume func (reflect.Value).Elem
 //@   nopanic
 //@   ensures ptrh(result) >= 0 && ptrh(result) < ptrh(this)
+//@ define collkind(k) := k == 17 || k == 23 || k == 21 || k == 20 || k == 22
+//@ define compat(a, b) := gtype(rtype(a)) == gtype(rtype(b)) || gtype(rtype(a)) == "any" || gtype(rtype(b)) == "any"
 //@ func (*collator_).compareValues
 //@   props C08
 //@   modifies this.depth_
 //@   decreases this.maximum_ - this.depth_, 3, ptrh(first)
 //@   ensures[C08] this.depth_ == old(this.depth_)
+//@   defines result <==> cv(this, first, second)
+//@   ensures[C08] !rvalid(first) ==> (result <==> !rvalid(second))
+//@   ensures[C08] rvalid(first) && !rvalid(second) ==> !result
+//@   ensures[C08] rvalid(first) && rvalid(second) && !compat(first, second) ==> !result
+//@   ensures[C08] rvalid(first) && rvalid(second) && compat(first, second) && collkind(rkind(first)) && rnil(first) ==> (result <==> rnil(second))
+//@   ensures[C08] rvalid(first) && rvalid(second) && compat(first, second) && collkind(rkind(first)) && !rnil(first) && rnil(second) ==> !result
 //@ func (*collator_).compareArrays
 //@   props C08
 //@   modifies this.depth_
 //@   decreases this.maximum_ - this.depth_, 1
 //@   ensures[C08] this.depth_ == old(this.depth_)
+//@   ensures[C08] result <==> rlen(first) == rlen(second) && (forall j :: 0 <= j && j < rlen(first) ==> cv(this, rindex(first, j), rindex(second, j)))
 //@   loop 1:
-//@     invariant 0 <= i && this.depth_ == old(this.depth_) && this.depth_ < this.maximum_
+//@     invariant 0 <= i && this.depth_ == old(this.depth_) && this.depth_ < this.maximum_ && size == rlen(first) && size == rlen(second)
+//@     invariant forall j :: 0 <= j && j < i ==> cv(this, rindex(first, j), rindex(second, j))
 //@     decreases size - i
 //@ func (*collator_).compareMaps
 //@   props C08
@@ -468,28 +502,45 @@ package agent
 //@   modifies this.depth_
 //@   ensures[C08] this.depth_ == old(this.depth_)
 //@   xensures[C08] this.depth_ == old(this.depth_)
+//@ declare gtype(U) Str
 //@ func (*collator_).getType
 //@   nilok
 //@   noverify
 //@   trusted
-//@   pure
 //@   nopanic
+//@   defines result == gtype(type_)
 
 //@ func (*collator_).rankValues
 //@   props C08 C07
 //@   modifies this.depth_
 //@   decreases this.maximum_ - this.depth_, 3, ptrh(first)
 //@   ensures[C08] this.depth_ == old(this.depth_)
+//@   defines result == rv(this, first, second)
+//@   ensures[C07] !rvalid(first) && !rvalid(second) ==> result == 1
+//@   ensures[C07] !rvalid(first) && rvalid(second) ==> result == 0
+//@   ensures[C07] rvalid(first) && !rvalid(second) ==> result == 2
+//@   ensures[C07] rvalid(first) && rvalid(second) && !compat(first, second) ==> result == srank(gtype(rtype(first)), gtype(rtype(second)))
+//@   ensures[C07] rvalid(first) && rvalid(second) && compat(first, second) && collkind(rkind(first)) && rnil(first) ==> result == ite(rnil(second), 1, 0)
+//@   ensures[C07] rvalid(first) && rvalid(second) && compat(first, second) && collkind(rkind(first)) && !rnil(first) && rnil(second) ==> result == 2
+//@   ensures[C07] result <= 2
+// lexicographic order with a proper prefix first; when the first array is longer the operands are swapped and the result mirrored
+//@ define er(c, a, b, j) := rv(c, rindex(a, j), rindex(b, j))
+//@ define lexpost(c, a, b, r) := ((forall j :: 0 <= j && j < rlen(a) ==> er(c, a, b, j) == 1) ==> r == ite(rlen(a) < rlen(b), 0, 1)) && (forall k :: 0 <= k && k < rlen(a) && er(c, a, b, k) != 1 && (forall j :: 0 <= j && j < k ==> er(c, a, b, j) == 1) ==> r == er(c, a, b, k))
 //@ func (*collator_).rankArrays
 //@   props C08 C07
+//@   ensures[C07] result <= 2
 //@   modifies this.depth_
 //@   decreases this.maximum_ - this.depth_, 1, ite(rlen(first) > rlen(second), 1, 0)
 //@   ensures[C08] this.depth_ == old(this.depth_)
+//@   ensures[C07] rlen(first) <= rlen(second) ==> lexpost(this, first, second, result)
+//@   ensures[C07] rlen(first) > rlen(second) ==> lexpost(this, second, first, 2 - result)
 //@   loop 1:
-//@     invariant 0 <= i && this.depth_ == old(this.depth_) && this.depth_ < this.maximum_
+//@     invariant 0 <= i && this.depth_ == old(this.depth_) && this.depth_ < this.maximum_ && firstSize == rlen(first) && secondSize == rlen(second) && firstSize <= secondSize
+//@     invariant forall j :: 0 <= j && j < i ==> er(this, first, second, j) == 1
 //@     decreases firstSize - i
 //@ func (*collator_).rankMaps
 //@   props C08 C07
+//@   ensures[C07] result <= 2
 //@   modifies this.depth_
 //@   decreases this.maximum_ - this.depth_, 1, ite(rlen(first) > rlen(second), 1, 0)
 //@   ensures[C08] this.depth_ == old(this.depth_)
@@ -498,11 +549,13 @@ package agent
 //@     decreases firstSize - i
 //@ func (*collator_).rankSequences
 //@   props C08 C07
+//@   ensures[C07] result <= 2
 //@   modifies this.depth_
 //@   decreases this.maximum_ - this.depth_, 2
 //@   ensures[C08] this.depth_ == old(this.depth_)
 //@ func (*collator_).rankInterfaces
 //@   props C08 C07
+//@   ensures[C07] result <= 2
 //@   modifies this.depth_
 //@   decreases this.maximum_ - this.depth_, 2
 //@   ensures[C08] this.depth_ == old(this.depth_)
@@ -511,6 +564,7 @@ package agent
 //@     decreases count - index
 //@ func (*collator_).rankStructures
 //@   props C08 C07
+//@   ensures[C07] result <= 2
 //@   modifies this.depth_
 //@   decreases this.maximum_ - this.depth_, 2
 //@   ensures[C08] this.depth_ == old(this.depth_)
@@ -519,6 +573,7 @@ package agent
 //@     decreases count - index
 //@ func (*collator_).rankIntrinsics
 //@   props C08 C07
+//@   ensures[C07] result <= 2
 //@   ensures[C08] this.depth_ == old(this.depth_)
 //@ func (*collator_).RankValues
 //@   props C08 C07
